@@ -280,7 +280,9 @@ def resetPayload : Doc → Doc
 /-- `operator=(ValueType)` (Value.hpp:203-206) only sets the tag.  The payload bytes are reinterpreted,
 which is well defined only when they are all zero: that is known for scalars whose 8 payload bytes
 are zero (an empty string or container may still own storage); `none` otherwise (and for ValuePtr,
-which would be a null pointer). -/
+which would be a null pointer).  An `undef` value may be a moved-from scalar that still holds its old
+bits (the move only rewrites the source's tag, Value.hpp:83-107,208-240); the harness therefore calls
+`Reset()` on an Undefined value before `operator=(ValueType)`, which is what `undef` stands for here. -/
 def assignType (k : Nat) (d : Doc) : Option Doc :=
   let zero : Bool := match d with
     | undef | tru | fls | null => true
@@ -535,7 +537,8 @@ def setBool (env : Env) (d : Doc) : Option Bool :=
   | str s => if s = trueText then some true else if s = falseText then some false else none
   | _ => none
 
-/-! ### `operator==` (Value.hpp:829-874, after the cross-kind repair) -/
+/-! ### `operator==` (Value.hpp:846-895, after the cross-kind repair 0c82573 and the right-hand pointer
+repair 73c896c: a pointer on either side is dereferenced) -/
 
 def eqF (env : Env) : Nat → Doc → Doc → Bool
   | 0, _, _ => false
@@ -553,7 +556,10 @@ def eqF (env : Env) : Nat → Doc → Doc → Bool
     else
       match a with
       | ptr r => eqF env f (envGet env r) b
-      | _ => false
+      | _ =>
+        match b with
+        | ptr q => eqF env f a (envGet env q)
+        | _ => false
 
 def valEq (env : Env) (a b : Doc) : Bool := eqF env (2 * env.length + 2) a b
 
